@@ -413,7 +413,6 @@ struct Acc {
     knob_vectors: HashSet64,
     kernels: Counters,
     digests: BTreeMap<u64, String>,
-    mismatch: Option<u64>,
     samples: Vec<Value>,
 }
 
